@@ -10,6 +10,7 @@ pub mod c02;
 pub mod c03;
 pub mod c04;
 pub mod c05;
+pub mod c06;
 
 use common::*;
 use serde_json::Value;
@@ -34,6 +35,7 @@ pub fn modules() -> Vec<Module> {
         module!("C03", c03),
         module!("C04", c04),
         module!("C05", c05),
+        module!("C06", c06),
     ]
 }
 
